@@ -100,7 +100,12 @@ def build_runner(case, log, workdir=None):
         def _keep_going(self, current_params, current_sim_results, current_rep):
             v = var_of(current_params)
             sk = int(current_sim_results["num_skipped_reps"][-1].get_result())
-            log.append(["test", v, int(current_rep), sk])
+            # what the predicate is handed must be the merge of the successful attempts so far (not a stale or partial object)
+            tokr = current_sim_results["tok"][-1]
+            seen = decode(tokr.get_result())
+            if tokr.num_updates != len(seen):
+                log.append(["bad", v, f"_keep_going was handed results with update count {tokr.num_updates} for merged attempts {seen}"])
+            log.append(["test", v, int(current_rep), sk, seen])
             kg = plans[v - 1]["kg"]
             if kg[0] == "always":
                 ans = True
@@ -174,9 +179,15 @@ def run_case(case):
         d = None
         sim = case["nsim"] - 1          # the emitted summary describes the LAST simulate() call of the chain
         earlier = None
+        # the single-variation index as the int or (command-line route, documented) as a string
+        as_str = single and (len(case["calls"]) + cfg["repmax"]) % 2 == 1
+        sidx = (str(cfg["mode"][1] - 1) if as_str else cfg["mode"][1] - 1) if single else None
         for k in range(sim):              # earlier calls on the same runner (their own summaries are separate cases)
             r.rep_max = cfg["repmax"]
-            r.simulate()
+            if single and k % 2 == 0:
+                r.simulate(sidx)          # the same single variation twice on one runner (and single -> all -> single)
+            else:
+                r.simulate()
             if not single:
                 # what the user keeps from the earlier call is a value: the next simulate() must not change it
                 earlier = (r.results, [x.get_result() for x in r.results["tok"]], list(r.results.runned_reps))
@@ -188,7 +199,7 @@ def run_case(case):
                     for dp, _, fs in os.walk(wd):
                         for f in fs:
                             os.remove(os.path.join(dp, f))
-                    r.simulate(cfg["mode"][1] - 1)
+                    r.simulate(sidx)
                 else:
                     r.simulate()
             except Exception as ex:
@@ -204,14 +215,14 @@ def run_case(case):
             if bad:
                 return f"variation {bad[0][1]}: {bad[0][2]}", None, log
             calls = [[e[1], e[2], e[3]] for e in log if e[0] == "call"]
-            tests = [[e[1], e[2], e[3]] for e in log if e[0] == "test"]
+            tests = [[e[1], e[2], e[3], e[4]] for e in log if e[0] == "test"]
             if calls != case["calls"]:
                 k = next((i for i, (a, b) in enumerate(zip(calls, case["calls"])) if a != b), min(len(calls), len(case["calls"])))
                 return (f"simulate #{sim + 1}: call sequence differs at position {k}: got {calls[k] if k < len(calls) else 'end'}, "
                         f"expected {case['calls'][k] if k < len(case['calls']) else 'end'}"), None, log
             if tests != case["tests"]:
                 k = next((i for i, (a, b) in enumerate(zip(tests, case["tests"])) if a != b), min(len(tests), len(case["tests"])))
-                return (f"simulate #{sim + 1}: _keep_going consulted with (variation, rep, skips) = {tests[k] if k < len(tests) else 'end'}, "
+                return (f"simulate #{sim + 1}: _keep_going consulted with (variation, rep, skips, merged attempts seen) = {tests[k] if k < len(tests) else 'end'}, "
                         f"expected {case['tests'][k] if k < len(case['tests']) else 'end'}"), None, log
             if single:
                 if r.runned_reps != case["runned"][0]:
@@ -230,17 +241,19 @@ def run_case(case):
                 if list(r.results.runned_reps) != case["runned"]:
                     return f"results.runned_reps {r.results.runned_reps} != {case['runned']}", None, log
                 d = check_results(lambda n: r.results[n], case["stored"], f"simulate #{sim + 1}")
-                if not d and sim == 0 and case["grid"]:
-                    # lookups on the runner's own results: fix the first parameter to each of its values
+                if not d:
+                    # lookups on the runner's own results (after the first and after a later simulate()): every partial
+                    # assignment of the unpacked parameters (0 = not fixed), also none fixed / nothing unpacked
+                    import itertools
                     g = case["grid"]
-                    for x in g[0]:
-                        fixed = {pc.NAMES[0]: pc.VALUES[0][x]}
-                        want = [decode(0) for _ in ()]
-                        idx = [i for i, c in enumerate(case["combos"]) if c[0] == x]
+                    for fx in itertools.product(*[[0] + list(vals) for vals in g]):
+                        fixed = {pc.NAMES[p]: pc.VALUES[p][x] for p, x in enumerate(fx) if x}
+                        idx = [i for i, c in enumerate(case["combos"]) if all(x == 0 or c[p] == x for p, x in enumerate(fx))]
                         got = r.results.get_result_values_list("tok", fixed_params=fixed)
                         exp = [float(sum(2 ** (a - 1) for a in case["stored"][i]["merged"])) for i in idx]
                         if [float(z) for z in got] != exp:
                             d = f"get_result_values_list(tok, {fixed}) returned {got}, expected the results of variations {[i + 1 for i in idx]}"
+                            break
             if d:
                 return d, None, log
         return None, None, log
@@ -306,7 +319,7 @@ def run(ctx):
             ctx.sample({"cfg": c["cfg"], "calls": c["calls"], "runned": c["runned"]})
     ctx.require_actions(["SimStart", "FirstRep", "Test", "Body", "VarEnd"])
     # parameter grid algebra: order and lookup (Params.tla)
-    for universe, maxlen, label in ([([[1, 2, 3], [1, 2]], [2, 2], "lookup/2params"), ([[1, 2, 3, 4]], [3], "lookup/1param")] +
+    for universe, maxlen, label in ([([], [], "lookup/0params"), ([[1, 2, 3], [1, 2]], [2, 2], "lookup/2params"), ([[1, 2, 3, 4]], [3], "lookup/1param")] +
                                    ([([[1, 2, 3], [1, 2, 3], [1, 2]], [2, 2, 2], "lookup/3params")] if ctx.tier == "thorough"
                                     else [([[1, 2], [1, 2], [1, 2]], [2, 2, 2], "lookup/3params")])):
         r = pc.run_tlc(ctx, "lookup", universe, maxlen, label)
